@@ -25,11 +25,11 @@ package main
 
 import (
 	"bytes"
-	"io"
-	"log"
 	"context"
 	"errors"
 	"fmt"
+	"io"
+	"log"
 	"net/http"
 	"os"
 	"path/filepath"
